@@ -44,4 +44,16 @@ if [ "$1" = "C20" ]; then
     fi
 fi
 cd "$here/.." || exit 2
+if [ "$2" = "--replay" ]; then
+    # a replayed case may kill or hang the process (that is what it recorded): map that to a verdict
+    timeout 300 "$here/target/release/check" "$@"
+    code=$?
+    case "$code" in
+        0|1|2) exit "$code" ;;
+        *)
+            echo "violation class=$1/process-death-or-hang: replaying $3 ended the process abnormally (status $code)"
+            echo "VIOLATION property=$1 replay=$3"
+            exit 1 ;;
+    esac
+fi
 exec "$here/target/release/check" "$@"
